@@ -16,9 +16,10 @@ Check (C01_roundtrip_datum_partial :
   exists d, datum_from_trait default_ro alpha fast std_parse k (bytes_events (print0 ryu v)) = POk d /\ dvalue d = v).
 
 Check (C01_reads_exactly_partial :
-  forall ryu alpha fast std_parse v fuel r D rest,
-  rt_ok alpha v -> N.of_nat (rdepth v) < D -> D <= 128 -> (length (print0 ryu v) + 16 <= fuel)%nat ->
-  ReaderProofs.at_bytes r (print0 ryu v ++ rest) -> delim_ok rest ->
+  forall ryu alpha fast std_parse v fuel r D pre rest,
+  trivia pre -> rt_ok alpha v -> N.of_nat (rdepth v) < D -> D <= 128 ->
+  (length pre + length (print0 ryu v) + 16 <= fuel)%nat ->
+  ReaderProofs.at_bytes r (pre ++ print0 ryu v ++ rest) -> delim_ok rest ->
   exists r', next_value default_ro alpha fast std_parse fuel (mkp r D) = (POk (Some v), mkp r' D) /\
              ReaderProofs.at_bytes r' rest /\ rk r' = rk r).
 
